@@ -147,6 +147,11 @@ def aggregate(prop, tier, seed, module, results, failures, wall):
     for dotted, n in anchors.items():
         if n == 0:
             reasons.append('anchor %s never executed' % dotted)
+    if truncated:
+        reasons.append('cut short by the wall-clock watchdog (%d cases '
+                       'skipped): a verdict needs the whole workload' % sum(
+                           v for k, v in counters.items()
+                           if k.startswith('skipped_by_watchdog')))
     if evaluations < 1 or len(sigs) < 2:
         reasons.append('too few cases')
 
@@ -217,8 +222,10 @@ def aggregate(prop, tier, seed, module, results, failures, wall):
 
 def run_property(prop, tier, seed, n_shards):
     module = importlib.import_module('checks.' + prop.lower())
+    # (a generous wall-clock watchdog, 20-30 times the run time on an idle
+    # machine; a run it cuts short is inconclusive, not held)
     budget = module.BUDGET[tier] if hasattr(module, 'BUDGET') else (
-        240 if tier == 'quick' else 1500)
+        900 if tier == 'quick' else 5400)
     t0 = time.time()
     results, failures = run_shards(prop, tier, seed, n_shards, budget)
     wall = time.time() - t0
